@@ -165,3 +165,92 @@ Lemma root_op_refuted_lemma :
   spec_out w_root_op 0 = OErr EINVAL /\ impl_out w_root_op 0 = OOk /\
   spec_out w_root_op 1 = OBool true /\ impl_out w_root_op 1 = OBool false.
 Proof. vm_compute. repeat split; reflexivity. Qed.
+
+(* ---- sync is invisible (corollary of the refinement) ---------------------------------------- *)
+From TV.Fs Require Import Facts View Refine.
+
+Definition is_sync (o : op) : bool :=
+  match o with SyncAll _ | SyncData _ | SyncDir _ => true | _ => false end.
+
+Lemma sstep_sync t o : is_sync o = true -> fst (sstep t o) = t.
+Proof.
+  destruct o; try discriminate; intros _; cbn [sstep].
+  - destruct (sget (shs t) slot); reflexivity.
+  - destruct (sget (shs t) slot); reflexivity.
+  - destruct (nget (names t) p) as [[|i]|]; reflexivity.
+Qed.
+
+Lemma gone_sync t g o : is_sync o = true -> gone_after t g o = g.
+Proof. destruct o; try discriminate; reflexivity. Qed.
+
+Lemma classes_from_app : forall l1 l2 t g,
+  classes_from t g (l1 ++ l2) = [] ->
+  classes_from t g l1 = [] /\
+  exists t' g', fst (srun t l1) = t' /\ classes_from t' g' l2 = [] /\
+    (forall l3, classes_from t g l1 = [] -> classes_from t' g' l3 = [] -> classes_from t g (l1 ++ l3) = []).
+Proof.
+  induction l1 as [|o l1 IH]; intros l2 t g H; cbn [app classes_from srun] in *.
+  - split; [reflexivity|]. exists t, g. cbn. auto.
+  - apply app_eq_nil in H as [H1 H2]. destruct (IH l2 _ _ H2) as [A (t' & g' & B & C & D)].
+    split; [rewrite H1, A; reflexivity|].
+    exists t', g'. destruct (sstep t o) as [t1 y]; cbn [fst] in *. destruct (srun t1 l1) as [t2 ys]; cbn [fst] in *.
+    split; [exact B|]. split; [exact C|]. intros l3 E1 E2. rewrite H1. cbn. apply D; auto.
+Qed.
+
+Lemma Forall2_len {A B} (R : A -> B -> Prop) : forall l1 l2, Forall2 R l1 l2 -> length l1 = length l2.
+Proof. induction 1; cbn; congruence. Qed.
+
+Lemma length_srun : forall l t, length (snd (srun t l)) = length l.
+Proof.
+  induction l as [|a l IH]; intro t; cbn; [reflexivity|].
+  destruct (sstep t a) as [t1 y]. specialize (IH t1). destruct (srun t1 l). cbn in *. lia.
+Qed.
+
+Lemma sync_is_invisible_lemma : forall l1 o l2,
+  is_sync o = true ->
+  forallb c10_op (l1 ++ o :: l2) = true -> known_free (l1 ++ o :: l2) = true ->
+  let ref := snd (srun init_sworld (l1 ++ l2)) in
+  let with_sync := snd (run (init_world 0) (l1 ++ o :: l2)) in
+  let without := snd (run (init_world 0) (l1 ++ l2)) in
+  known_free (l1 ++ l2) = true /\
+  Forall2 obs_ok ref without /\
+  Forall2 obs_ok ref (firstn (length l1) with_sync ++ skipn (S (length l1)) with_sync).
+Proof.
+  intros l1 o l2 Hs Hal Hk ref with_sync without.
+  assert (Hal' : forallb c10_op (l1 ++ l2) = true).
+  { rewrite forallb_app in *. cbn in Hal. apply andb_true_iff in Hal as [A B]. apply andb_true_iff in B as [_ B].
+    rewrite A, B. reflexivity. }
+  assert (Hk0 : classes_from init_sworld [] (l1 ++ o :: l2) = []).
+  { unfold known_free, classes in Hk. destruct (classes_from init_sworld [] (l1 ++ o :: l2)); [reflexivity|discriminate]. }
+  destruct (classes_from_app l1 (o :: l2) _ _ Hk0) as [A (t' & g' & B & C & D)].
+  cbn [classes_from] in C. apply app_eq_nil in C as [C1 C2].
+  rewrite (sstep_sync t' o Hs), (gone_sync t' g' o Hs) in C2.
+  assert (Hk' : known_free (l1 ++ l2) = true).
+  { unfold known_free, classes. rewrite (D l2 A C2). reflexivity. }
+  split; [exact Hk'|]. split; [apply refines_lemma; assumption|].
+  pose proof (refines_lemma _ Hal Hk) as HR.
+  unfold ref, with_sync. rewrite run_app in *. rewrite srun_app in *. cbn [snd fst] in *.
+  cbn [srun run] in HR |- *.
+  destruct (sstep (fst (srun init_sworld l1)) o) as [t1 y] eqn:Es.
+  assert (Ht1 : t1 = fst (srun init_sworld l1)).
+  { pose proof (sstep_sync (fst (srun init_sworld l1)) o Hs) as E. rewrite Es in E. exact E. }
+  subst t1.
+  destruct (step (fst (run (init_world 0) l1)) o) as [w1 x] eqn:Ew.
+  destruct (srun (fst (srun init_sworld l1)) l2) as [t2 ys] eqn:Er2.
+  destruct (run w1 l2) as [w2 xs] eqn:Er3. cbn [fst snd] in *.
+  apply Forall2_app_inv_l in HR as (xa & xb & H1 & H2 & Heq).
+  inversion H2 as [|? x' ? xb' Hy Hrest]; subst.
+  assert (Hlen : length xa = length l1).
+  { apply Forall2_len in H1. rewrite <- H1. apply length_srun. }
+  rewrite Heq. rewrite <- Hlen.
+  rewrite firstn_app, Nat.sub_diag, firstn_all. cbn [firstn]. rewrite app_nil_r.
+  replace (S (length xa)) with (length xa + 1)%nat by lia.
+  rewrite skipn_app, skipn_all2 by lia. replace (length xa + 1 - length xa)%nat with 1%nat by lia.
+  cbn [skipn app]. apply Forall2_app; assumption.
+Qed.
+
+(* a non-trivial history inside the proven alphabet *)
+Definition h_demo : list op :=
+  [Mkdir [4]; O_RWC 1 [4; 1]; WriteAt 1 0 [65; 66; 67; 68] false; SetLen 1 2 false; SyncDir [];
+   WriteAt 1 4 [69] true; SyncDir [4]; Open 2 [4; 1] true false false false false false;
+   Read 2 8; Unlink [4; 1]; Readdir [4]; Spit [2] [70; 71] false; Slurp [2]; Rmdir [4]; Exists [4]].
